@@ -132,7 +132,11 @@ func (x *Exec) callValue(st *State, fv SVal, sig *types.Signature, args []SVal, 
 			// or projection returns an observable / subject, not nil
 			st.assume(not(eq(t, "nil")))
 		}
-		res = append(res, x.unbox(st, t, rs.At(i).Type()))
+		rv := x.unbox(st, t, rs.At(i).Type())
+		if rv.K == KU && rv.Src == "" {
+			rv.Src = short + "()" // calls on the value a user function returned are named after it: finally().SubscribeWithContext
+		}
+		res = append(res, rv)
 	}
 	ev := Event{Name: "callfn:" + short, Args: args, Res: res, Pos: pos}
 	if x.PanicForks {
